@@ -326,7 +326,7 @@ int mod_deregister(m_mod_t **mod, bool from_user) {
              * Destroy context if it is not looping and
              * it has no more modules in it and is not a persistent ctx
              */
-            if (c->state == M_CTX_IDLE && m_map_len(c->modules) == 0 && !(c->flags & M_CTX_PERSIST)) {
+            if (from_user && c->state == M_CTX_IDLE && m_map_len(c->modules) == 0 && !(c->flags & M_CTX_PERSIST)) {
                 ret = m_ctx_deregister();
             }
         }
